@@ -30,16 +30,17 @@ Definition zrange (lb ub : Z) : list Z :=
 (* DInt: integral bounds; DIntQ: bounds as the model reports them when they are not integral *)
 Inductive vdom := DBin | DSpin | DInt (lb ub : Z) | DIntQ (lb ub : Qc).
 
-(* python int(x): truncation toward zero *)
-Definition qtrunc (q : Qc) : Z := Z.quot (Qnum q) (Zpos (Qden q)).
+(* math.floor / math.ceil of a rational *)
+Definition qfloor (q : Qc) : Z := (Qnum q / Zpos (Qden q))%Z.
+Definition qceil (q : Qc) : Z := (- ((- Qnum q) / Zpos (Qden q)))%Z.
 
-(* _iterator_by_vartype: range(int(lower_bound), int(upper_bound + 1)) *)
+(* _iterator_by_vartype: range(math.ceil(lower_bound), math.floor(upper_bound) + 1) *)
 Definition dom_values (d : vdom) : list Z :=
   match d with
   | DBin => [0; 1]%Z
   | DSpin => [-1; 1]%Z
   | DInt lb ub => zrange lb ub
-  | DIntQ lb ub => zrange (qtrunc lb) (qtrunc (ub + 1) - 1)
+  | DIntQ lb ub => zrange (qceil lb) (qfloor ub)
   end.
 
 (* _all_cases_dqm: meshgrid of range(num_cases(v)) *)
